@@ -9,10 +9,12 @@ STATIC_MODULES = ["SAV.orm.VersionRun"]
 RULE = (
     "2-3 real Sessions (autoflush off, expire_on_commit per session) on one SQLite FILE database in WAL mode, each on "
     "its own connection (busy timeout 0), driven in one thread: the case fixes which session performs its next "
-    "operation (get / get+set / get+delete / flush / commit / rollback on pks 1-3). Families: all (quick: sampled) "
+    "operation (get / get+set x / get+set y / get+delete / flush / commit / rollback on pks 1-3). Families: all (quick: sampled) "
     "interleavings of two programs of <= 4 operations from a pool of conflict programs + random programs, after an "
     "optional prologue that loads every row in every session; interleavings of three programs of <= 3 operations; "
-    "random longer histories; client-side and server-side (SET v = v + 1 ... RETURNING v) version generation; three "
+    "random longer histories; directed multi-row flushes with heterogeneous changed-column sets (several UPDATE groups); "
+    "client-side, server-side (SET v = v + 1 ... RETURNING v) version generation and a three-level joined-table "
+    "inheritance mapping (version in the root table, x in the intermediate, y in the leaf table; all instances of the leaf class); three "
     "dialect settings (supports_sane_rowcount / supports_sane_multi_rowcount flipped on the engine's dialect). "
     "Observation per operation = result (value seen / ok / StaleDataError / 'database is locked'), the SELECT / UPDATE "
     "/ DELETE statements with their parameters (before_cursor_execute), and the committed rows read by an independent "
@@ -62,7 +64,7 @@ ANCHORS = [
     ("lib/sqlalchemy/orm/session.py", "Session.commit"),
 ]
 
-LOAD, SET, DEL, FLUSH, COMMIT, ROLLBACK = range(6)
+LOAD, SET, DEL, FLUSH, COMMIT, ROLLBACK, SETY = range(7)  # SET assigns column x, SETY column y
 
 
 def translate(repo, outdir):
@@ -73,10 +75,11 @@ def translate(repo, outdir):
 
 
 # ---------------- case generation ----------------
-# programs are strings: l<k> load, s<k> set, d<k> delete, F flush, C commit, R rollback
+# programs are strings: l<k> load, s<k> set x, t<k> set y, d<k> delete, F flush, C commit, R rollback
 POOL = [
     "l1 C s1 C", "s1 C", "s1 F C", "d1 C", "l1 C d1 C", "s1 s2 C", "l1 l2 C", "s1 F R", "d1 d2 C", "s1 d2 C",
     "s2 C s1 C", "d1 F C", "s1 F s2 C", "l1 s1 F C", "s1 C s1 C", "F C", "s1 R", "l1", "s2 d1 F C", "d2 C",
+    "s1 t2 C", "t1 s2 C", "t1 C", "s1 t1 C", "s1 t1 t2 C", "t1 F s2 C",
 ]
 
 
@@ -87,6 +90,8 @@ def _prog(p, sid, vals):
             out.append([sid, LOAD, int(t[1]), 0])
         elif t[0] == "s":
             out.append([sid, SET, int(t[1]), next(vals)])
+        elif t[0] == "t":
+            out.append([sid, SETY, int(t[1]), next(vals)])
         elif t[0] == "d":
             out.append([sid, DEL, int(t[1]), 0])
         else:
@@ -97,8 +102,8 @@ def _prog(p, sid, vals):
 def _rand_prog(rng, n, nk):
     toks = []
     for _ in range(n):
-        t = rng.choice(["l", "s", "s", "d", "F", "C", "C", "R"])
-        toks.append(t + str(rng.randint(1, nk)) if t in "lsd" else t)
+        t = rng.choice(["l", "s", "s", "t", "d", "F", "C", "C", "R"])
+        toks.append(t + str(rng.randint(1, nk)) if t in "lstd" else t)
     return " ".join(toks)
 
 
@@ -122,7 +127,7 @@ def _merges(lens):
 
 def _case(rng, progs, order, prologue, nk, mode, dial, eocs, kind):
     vals = itertools.count(2)
-    rows0 = [[k, 0, 1] for k in range(1, nk + 1)]
+    rows0 = [[k, 0, 0, 1] for k in range(1, nk + 1)]
     ops = []
     if prologue:
         for i in range(len(progs)):
@@ -152,7 +157,7 @@ def gen_cases(rng, tier):
         if not thorough and len(ms) > 14:
             ms = rng.sample(ms, 14)
         prologue = rng.random() < 0.6
-        mode = rng.randint(0, 1)
+        mode = rng.choice([0, 1, 2])
         dial = rng.choice([0, 0, 0, 0, 1, 2])
         eocs = [rng.choice([0, 0, 1]), rng.choice([0, 0, 1])]
         for m in ms:
@@ -172,7 +177,7 @@ def gen_cases(rng, tier):
         if len(ms) > k:
             ms = rng.sample(ms, k)
         prologue = rng.random() < 0.7
-        mode = rng.randint(0, 1)
+        mode = rng.choice([0, 1, 2])
         dial = rng.choice([0, 0, 0, 1, 2])
         eocs = [rng.choice([0, 0, 1]) for _ in range(3)]
         for m in ms:
@@ -183,19 +188,21 @@ def gen_cases(rng, tier):
         nk = rng.choice([2, 3])
         ops = []
         for _ in range(rng.randint(3, 14)):
-            op = rng.choice([LOAD, SET, SET, DEL, FLUSH, COMMIT, COMMIT, ROLLBACK])
-            ops.append([rng.randrange(ns), op, rng.randint(1, nk) if op < 3 else 0, rng.randint(2, 9) if op == SET else 0])
+            op = rng.choice([LOAD, SET, SET, SETY, DEL, FLUSH, COMMIT, COMMIT, ROLLBACK])
+            ops.append([rng.randrange(ns), op, rng.randint(1, nk) if op in (LOAD, SET, DEL, SETY) else 0,
+                        rng.randint(2, 9) if op in (SET, SETY) else 0])
         cases.append(
             {
-                "in": [rng.randint(0, 1), rng.choice([0, 0, 0, 1, 2]), [rng.choice([0, 0, 1]) for _ in range(ns)],
-                       [[k, 0, 1] for k in range(1, nk + 1)], ops],
+                "in": [rng.choice([0, 1, 2]), rng.choice([0, 0, 0, 1, 2]), [rng.choice([0, 0, 1]) for _ in range(ns)],
+                       [[k, 0, 0, 1] for k in range(1, nk + 1)], ops],
                 "kind": "random",
             }
         )
     # --- directed: one session goes stale on one of several rows, every dialect setting and mode
     for dial in (0, 1, 2):
-        for mode in (0, 1):
-            for victim in ("d1 d2 C", "s1 s2 C", "s1 d2 C", "d1 d2 d3 F C", "d2 C", "s2 C", "s1 s2 F l1 C"):
+        for mode in (0, 1, 2):
+            for victim in ("d1 d2 C", "s1 s2 C", "s1 d2 C", "d1 d2 d3 F C", "d2 C", "s2 C", "s1 s2 F l1 C",
+                           "s1 t2 C", "t1 s2 C", "s1 t2 s3 C", "s1 t1 t2 C", "t1 t2 s3 t3 F C"):
                 for other in (("s1 C", "d1 C", "s2 C", "d2 F C", "s1 s2 C") if thorough else ("s1 C", "d2 F C", "s1 s2 C")):
                     for eoc in ((0, 1) if thorough else (0,)):
                         la, lb = len(victim.split()), len(other.split())
@@ -208,7 +215,7 @@ def nontrivial(c):
     ops = c["in"][4]
     touch = {}
     for i, op, k, _ in ops:
-        if op in (SET, DEL):
+        if op in (SET, SETY, DEL):
             touch.setdefault(k, set()).add(i)
     return any(len(v) > 1 for v in touch.values()) and any(op == COMMIT for _, op, _, _ in ops)
 
@@ -225,7 +232,7 @@ def impl_setup():
     import sqlite3
     import tempfile
 
-    from sqlalchemy import Column, Integer, create_engine, event, text
+    from sqlalchemy import Column, ForeignKey, Integer, String, create_engine, event, text
     from sqlalchemy.orm import declarative_base
 
     d = tempfile.mkdtemp(prefix="c44_")
@@ -233,13 +240,17 @@ def impl_setup():
     path = os.path.join(d, "v.db")
     obs = sqlite3.connect(path, isolation_level=None)
     obs.execute("pragma journal_mode=WAL")
-    obs.execute("create table a (id integer primary key, x integer, v integer not null default 1)")
+    obs.execute("create table a (id integer primary key, x integer, y integer, v integer not null default 1)")
+    obs.execute("create table root (id integer primary key, v integer not null, kind varchar(10))")
+    obs.execute("create table mid (id integer primary key references root(id), x integer)")
+    obs.execute("create table leaf (id integer primary key references mid(id), y integer)")
     B0 = declarative_base()
 
     class A0(B0):
         __tablename__ = "a"
         id = Column(Integer, primary_key=True)
         x = Column(Integer)
+        y = Column(Integer)
         v = Column(Integer, nullable=False)
         __mapper_args__ = {"version_id_col": v}
 
@@ -249,8 +260,31 @@ def impl_setup():
         __tablename__ = "a"
         id = Column(Integer, primary_key=True)
         x = Column(Integer)
+        y = Column(Integer)
         v = Column(Integer, nullable=False, server_default=text("1"), onupdate=text("v + 1"))
         __mapper_args__ = {"version_id_col": v, "version_id_generator": False}
+
+    B2 = declarative_base()
+
+    # three-level joined-table inheritance: version in the root table, x in the intermediate, y in the leaf table
+    class Root(B2):
+        __tablename__ = "root"
+        id = Column(Integer, primary_key=True)
+        v = Column(Integer, nullable=False)
+        kind = Column(String(10))
+        __mapper_args__ = {"version_id_col": v, "polymorphic_on": kind, "polymorphic_identity": "root"}
+
+    class Mid(Root):
+        __tablename__ = "mid"
+        id = Column(Integer, ForeignKey("root.id"), primary_key=True)
+        x = Column(Integer)
+        __mapper_args__ = {"polymorphic_identity": "mid"}
+
+    class Leaf(Mid):
+        __tablename__ = "leaf"
+        id = Column(Integer, ForeignKey("mid.id"), primary_key=True)
+        y = Column(Integer)
+        __mapper_args__ = {"polymorphic_identity": "leaf"}
 
     log = []
 
@@ -262,20 +296,31 @@ def impl_setup():
         @event.listens_for(e, "before_cursor_execute")
         def b(conn, cur, st, params, ctx, many):
             cps = ctx.compiled_parameters if ctx is not None and ctx.compiled is not None else []
-            w = st.split()[0].upper()
+            ws = st.split()
+            w = ws[0].upper()
             if w == "SELECT":
-                log.append([1, list(params)[0]])
+                log.append([1, _st["selkey"]])
             elif w == "UPDATE":
                 cp = cps[0]
-                log.append([2, cp.get("a_id"), cp.get("x"), cp.get("v"), cp.get("a_v")])
+                if ws[1] == "a":
+                    log.append([2, cp.get("a_id"), cp.get("x"), cp.get("y"), cp.get("v"), cp.get("a_v")])
+                elif ws[1] == "root":
+                    log.append([2, cp.get("root_id"), None, None, cp.get("v"), cp.get("root_v")])
             elif w == "DELETE":
-                log.append([3, [[cp.get("id"), cp.get("v")] for cp in cps]])
+                if ws[2] in ("a", "root"):
+                    log.append([3, [[cp.get("id"), cp.get("v")] for cp in cps]])
             else:
                 log.append([9, 0])
 
         return e
 
-    _st.update(obs=obs, cls=[A0, A1], eng=[mk(0), mk(1), mk(2)], log=log, dir=d)
+    _st.update(obs=obs, cls=[A0, A1, Leaf], eng=[mk(0), mk(1), mk(2)], log=log, dir=d, selkey=0)
+
+
+def _db_rows(mode):
+    q = "select id,x,y,v from a order by id" if mode < 2 else (
+        "select root.id, mid.x, leaf.y, root.v from root join mid on mid.id=root.id join leaf on leaf.id=root.id order by root.id")
+    return [list(r) for r in _st["obs"].execute(q)]
 
 
 def impl(c):
@@ -290,9 +335,15 @@ def impl(c):
         impl_setup()
     mode, dial, eocs, rows0, ops = c["in"]
     obs = _st["obs"]
-    obs.execute("delete from a")
-    for k, x, v in rows0:
-        obs.execute("insert into a (id,x,v) values (?,?,?)", (k, x, v))
+    for t in ("a", "leaf", "mid", "root"):
+        obs.execute("delete from " + t)
+    for k, x, y, v in rows0:
+        if mode < 2:
+            obs.execute("insert into a (id,x,y,v) values (?,?,?,?)", (k, x, y, v))
+        else:
+            obs.execute("insert into root (id,v,kind) values (?,?,'leaf')", (k, v))
+            obs.execute("insert into mid (id,x) values (?,?)", (k, x))
+            obs.execute("insert into leaf (id,y) values (?,?)", (k, y))
     A = _st["cls"][mode]
     e = _st["eng"][dial]
     log = _st["log"]
@@ -307,7 +358,8 @@ def impl(c):
                 s = S[i]
                 del log[:]
                 ex = None
-                if op in (LOAD, SET, DEL):
+                _st["selkey"] = k
+                if op in (LOAD, SET, SETY, DEL):
                     o = s.get(A, k)
                     if o is None:
                         keep[i].pop(k, None)
@@ -316,20 +368,22 @@ def impl(c):
                         keep[i][k] = o
                         if op == SET:
                             o.x = val
+                        elif op == SETY:
+                            o.y = val
                         elif op == DEL:
                             s.delete(o)
                         d = inspect(o).dict
-                        res = [1, d["x"], d["v"]]
+                        res = [1, d["x"], d["y"], d["v"]]
                 elif op in (FLUSH, COMMIT):
                     # what the session is about to write, and from which loaded version (for the oracle only)
                     held = []
                     for o in s.deleted:
                         d = inspect(o).dict
-                        held.append([d["id"], d["v"], "d", None, o])
+                        held.append([d["id"], d["v"], "d", None, None, o])
                     for o in s.dirty:
                         if o not in s.deleted and s.is_modified(o):
                             d = inspect(o).dict
-                            held.append([d["id"], d["v"], "u", d["x"], o])
+                            held.append([d["id"], d["v"], "u", d["x"], d["y"], o])
                     try:
                         if op == FLUSH:
                             s.flush()
@@ -344,7 +398,7 @@ def impl(c):
                             raise
                         s.rollback()
                         res = [2]
-                    ex = [h[:4] + [inspect(h[4]).dict.get("v") if h[2] == "u" else None] for h in held]
+                    ex = [h[:5] + [inspect(h[5]).dict.get("v") if h[2] == "u" else None] for h in held]
                 else:
                     s.rollback()
                     res = [0]
@@ -355,8 +409,7 @@ def impl(c):
                     if x[0] == 1 and st and st[-1] == x:
                         continue
                     st.append(list(x))
-                rows = [list(r) for r in obs.execute("select id,x,v from a order by id")]
-                out.append([res, st, rows])
+                out.append([res, st, _db_rows(mode)])
                 extra.append(ex)
     finally:
         for s in S:
@@ -372,17 +425,17 @@ def oracle(c, obs):
     if last is None or last[0] != c["in"]:
         return None
     extra = last[1]
-    com = {k: (x, v) for k, x, v in rows0}
+    com = {k: ((x, y), v) for k, x, y, v in rows0}
     writer = None  # (session, rows of its open write transaction)
     for n, ((i, op, k, val), (res, st, rows)) in enumerate(zip(ops, obs)):
-        after = {r[0]: (r[1], r[2]) for r in rows}
+        after = {r[0]: ((r[1], r[2]), r[3]) for r in rows}
         # versions of committed rows never go backwards; a changed row has a larger version
         for kk, (x1, v1) in after.items():
             if kk not in com:
                 return "op %d: row %d re-appeared" % (n, kk)
             x0, v0 = com[kk]
             if v1 < v0 or (v1 == v0 and x1 != x0):
-                return "op %d: row %d changed from (x=%s, v=%s) to (x=%s, v=%s) without a version increase" % (n, kk, x0, v0, x1, v1)
+                return "op %d: row %d changed from (data=%s, v=%s) to (data=%s, v=%s) without a version increase" % (n, kk, x0, v0, x1, v1)
         if op not in (FLUSH, COMMIT):
             if after != com:
                 return "op %d: a non-commit operation changed the committed rows" % n
@@ -404,7 +457,7 @@ def oracle(c, obs):
             return "op %d: flush/commit succeeded although session %d held version %s of row %d and the current row is %s%s" % (
                 n, i, stale[0][1], stale[0][0], cur.get(stale[0][0]), tag)
         work = dict(cur)
-        for kk, v, kind, newx, newv in held:
+        for kk, v, kind, newx, newy, newv in held:
             if kk not in work or work[kk][1] != v:
                 continue  # dialect without sane rowcount: the statement matched nothing
             if kind == "d":
@@ -414,7 +467,7 @@ def oracle(c, obs):
                     newv = after.get(kk, (None, None))[1]
                 if newv is None or not newv > v:
                     return "op %d: successful UPDATE of row %d did not increase the version (%s -> %s)" % (n, kk, v, newv)
-                work[kk] = (newx, newv)
+                work[kk] = ((newx, newy), newv)
         if held:
             writer = (i, work)
         if op == FLUSH:
